@@ -36,6 +36,7 @@ def shapes_for(lg):
 
 
 GEN_SRC = "harness/gen/log_driver.cpp"
+GEN_STATIC = "harness/gen/log_static.cpp"
 
 
 def ensure_generated():
@@ -45,7 +46,7 @@ def ensure_generated():
     srcs = gen_log_harness.sources()
     for p, t in srcs.items():
         framework.write_if_changed(os.path.join(framework.ROOT, p), t)
-    return sorted(p for p in srcs if p != GEN_SRC)
+    return sorted(p for p in srcs if p not in (GEN_SRC, GEN_STATIC))
 
 
 def cpps():
@@ -53,6 +54,40 @@ def cpps():
     return {"m%d" % i: dict(name="log_m%d" % i, driver_src=GEN_SRC, extra_srcs=extra,
                             defines=["NITRO_LOG_MIN_SEVERITY=%s" % SEVS[i], "VH_MIN=%d" % i])
             for i in range(6)}
+
+
+def static_assert_check(ctx, prop):
+    """compile harness/gen/log_static.cpp (static_asserts on decltype(L::sev()) for all loggers x severities) at each of the
+    six minima against the current tree; a failing assertion is a violation whose replay is the stream-type query of that
+    (logger, severity, minimum)"""
+    import re
+    from concurrent.futures import ThreadPoolExecutor
+
+    def one(i):
+        try:
+            framework.build_cpp(name="log_static_m%d" % i, driver_src=GEN_STATIC,
+                                defines=["NITRO_LOG_MIN_SEVERITY=%s" % SEVS[i], "VH_MIN=%d" % i])
+            return i, None
+        except framework.BuildError as e:
+            return i, str(e)
+    with ThreadPoolExecutor(6) as ex:
+        res = list(ex.map(one, range(6)))
+    failed = [(i, e) for i, e in res if e is not None]
+    ctx.setdefault("coverage_extra", {})["static_assert_programs"] = dict(compiled=6 - len(failed), failed=len(failed),
+                                                                          asserts_per_program=6 * len(LOGGERS))
+    if not failed:
+        return
+    i, err = failed[0]
+    m = re.search(r"C10-STREAM-TYPE logger=(\d+) severity=(\d+) expected=(\w+)", err)
+    payload = dict(property=prop, kind="static_assert", minimum=SEVS[i], output=err[-3000:], n_failing_minima=len(failed), seed=ctx["seed"], tier=ctx["tier"])
+    if m:
+        lg, sv = int(m.group(1)), int(m.group(2))
+        payload.update(case=case(i, [op_kind(lg, sv)]), expected_type=m.group(3),
+                       broken="decltype(logger %d::%s()) at NITRO_LOG_MIN_SEVERITY=%s is not %s" % (lg, SEVS[sv], SEVS[i], m.group(3)))
+        ctx["violations"].append(("", payload))
+    else:
+        payload["broken"] = "the static_assert program does not compile against this tree (not an assertion failure)"
+        ctx["violations"].append((" no-failing-input-found", payload))
 
 
 OCAML = dict(name="log", extracted="log_model.ml", glue=("glue_base.ml", "glue_z.ml", "log_lib.ml"))
